@@ -6,6 +6,7 @@ import (
 	"fmt"
 	"io"
 	"net/http"
+	"strings"
 	"time"
 
 	"github.com/hashicorp/raft"
@@ -27,6 +28,12 @@ func (api *HTTP) handleDeleteSession(w http.ResponseWriter, r *http.Request, ses
 	if api.raftNode.State() != raft.Leader {
 		api.maybeProxyToLeader(w, r, nopCloser{&body})
 		return
+	}
+
+	// The quit message is relayed to other clients as part of an IRC line,
+	// so it must not contain line separators or NUL.
+	if idx := strings.IndexAny(req.Quitmessage, "\r\n\x00"); idx > -1 {
+		req.Quitmessage = req.Quitmessage[:idx]
 	}
 
 	msg := &robust.Message{
